@@ -28,6 +28,7 @@ RULE = ('Dispatch: EVERY operation sequence of depth <= D over a 23-operation al
         'distinct histories with a last-callback registered before a plain one, an unconnect between two '
         'emits, nested silencing; progress histories with >= 2 completions or a reset after a completion.')
 RULE += ' Round 5: every second sender filter is a temporary object that only the registration refers to.'
+RULE += ' Round 6: every progress history of four value / maximum updates followed by any operation.'
 EXHAUSTIVE = {'quick': True, 'thorough': True}
 EXHAUSTIVE_SCOPE = {'quick': 'dispatch depth 4 (23 ops), progress depth 4 (15 ops)',
                     'thorough': 'dispatch depth 5, progress depth 6'}   # quick adds every progress history of 4 value/maximum updates + 1 operation
